@@ -552,3 +552,34 @@ func c05KernelTier(run *vlib.Run, ts []*vlib.Target) {
 		}
 	})
 }
+
+// exactPolicy builds a harmless-to-tune policy whose program has exactly
+// target instructions on t if possible (returns the length reached).
+func exactPolicy(t *vlib.Target, target, variant int) (*seccomp.Policy, int) {
+	length := func(p *seccomp.Policy) int {
+		c := vlib.Compile(vlib.SpecOf(p, t.Name).Policy(), t)
+		if !c.OK() {
+			return 1 << 30
+		}
+		return len(c.Raw)
+	}
+	for v := variant; v < variant+6; v++ {
+		p := sizedPolicy(t, target, v)
+		l := length(p)
+		for k := 0; l < target-60 && k < 200; k++ {
+			p.Syscalls[0].NamesWithCondtions = append(p.Syscalls[0].NamesWithCondtions, seccomp.NameWithConditions{Name: t.Names[201+k/20], Conditions: eqList(uint64(900000+k*8), 4+v%5)})
+			l = length(p)
+		}
+		next := 250
+		for l < target && next < len(t.Names) {
+			p.Syscalls[0].Names = append(p.Syscalls[0].Names, t.Names[next])
+			next++
+			l = length(p)
+		}
+		if l == target {
+			return p, l
+		}
+	}
+	p := sizedPolicy(t, target, variant)
+	return p, length(p)
+}
